@@ -353,6 +353,9 @@ class Tract:
         self.e_flags = []
         # list of 2-tuples that caused error flags (error flag, text string)
         self.e_flag_lines = []
+        # Those of the above that were generated by the most recent
+        # (committed) parse of this Tract, keyed by attribute name.
+        self._flags_from_parse = {}
 
         # A list of QQ's (or smaller) with no quarter fractions
         # i.e. ['NENE', 'NENW', 'N2SENW', ... ]:
@@ -927,6 +930,10 @@ class Tract:
             # Unpack the appropriate attributes.
             for attribute in parser.UNPACKABLES:
                 setattr(self, attribute, getattr(parser, attribute))
+
+            # Remember which flags came from this parse, so that they
+            # are replaced (rather than repeated) if parsed again.
+            self._flags_from_parse = parser.flags_from_parse
 
             # Pull the preprocessed text from the parser.
             self.pp_desc = parser.text
